@@ -18,7 +18,8 @@ PROPERTY = "C06"
 LEVEL = "model_checking"
 RULE = (
     "grammars assgn/list/null/tags x all distinct open prefixes of all closed trees (<= 2 opened inner nodes quick, <= 3 thorough; "
-    "plus the prefix with everything below depth d opened) x a schema-stratified formula set x ALL completions from per-nonterminal "
+    "plus the prefix with everything below depth d opened) x a schema-stratified formula set (plus, per nonterminal, ten atoms over SMT operators the evaluator hands to Z3 - prefixof, suffixof, contains, "
+    "indexof, str.<=, str.<, replace, at, substr - positive and negated, under both quantifiers) x ALL completions from per-nonterminal "
     "pools of closed subtrees; a schema is a formula with constants blanked; non-trivial iff at least two of {TRUE, FALSE, UNKNOWN} occurred "
     "for it on open prefixes (UNKNOWN is always allowed)"
 )
@@ -45,6 +46,26 @@ def _formulas(name, tier):
         if seen.get(k, 0) < per:
             seen[k] = seen.get(k, 0) + 1
             out.append(f)
+    return out + _fallback_operator_formulas(name)
+
+
+def _fallback_operator_formulas(name):
+    """SMT operators that the evaluator does not translate to Python (it asks Z3 with the tree's string substituted): on an open tree the string
+    contains the names of the open leaves, so the probes are chosen to be sensitive to '<', '>' and the letters of nonterminal names"""
+    cg = canon(GR.cat(name))
+    out = []
+    V = ["v", "a"]
+    for T in [t for t in cg if t != "<start>"]:
+        ch = T[1]
+        atoms_ = [
+            ["str.prefixof", ["s", "<"], V], ["str.suffixof", ["s", ">"], V], ["str.contains", V, ["s", "<"]], ["str.contains", V, ["s", ch]],
+            ["=", ["str.indexof", V, ["s", ch], ["i", 0]], ["i", 1]], ["str.<=", V, ["s", "9"]], ["str.<", ["s", ";"], V],
+            ["=", ["str.replace", V, ["s", "<"], ["s", ""]], V], ["=", ["str.at", V, ["i", 0]], ["s", "<"]], ["=", ["str.substr", V, ["i", 0], ["i", 1]], ["s", "<"]],
+        ]
+        for e in atoms_:
+            for k in ("forall", "exists"):
+                out.append((k, T, "a", None, "start", ("smt", e)))
+                out.append((k, T, "a", None, "start", ("not", ("smt", e))))
     return out
 
 
